@@ -48,6 +48,15 @@ def build_data(spec):
             z = 1.0 if i % 2 else -1.0
         elif kind == 'outlier':
             z = r.gauss(0, 1) * (1000.0 if r.random() < 0.01 else 1.0)
+        elif kind == 'small_ints':
+            # few distinct values, many repeats: items land exactly on the running mean
+            xs.append(int(off) + r.randint(0, 3))
+            continue
+        elif kind == 'plateau':
+            # a constant prefix, then variation (floats): the first items equal the running mean exactly
+            z = 0.0 if i < max(2, n // 3) else r.choice([0.0, 1.0, -1.0, 0.5, r.gauss(0, 1)])
+        elif kind == 'lattice':
+            z = float(r.randint(-2, 2)) / 2
         else:   # int
             xs.append(int(off) + r.randint(-1000, 1000) * max(1, int(sc)))
             continue
@@ -136,7 +145,7 @@ class C12(Check):
     ID = 'C12'
     LEVEL = 'exploration'
     BUDGET = {'quick': 30, 'thorough': 300}
-    RULE = ('case = (dataset: distribution gauss/uniform/int/constant/alternating/outlier x offset {0,+-1,1e3,1e6,1e9} x scale 1e-8..1e8 x '
+    RULE = ('case = (dataset: distribution gauss/uniform/int/constant/alternating/outlier/small-ints-with-repeats/plateau-then-variation/half-integer lattice x offset {0,+-1,1e3,1e6,1e9} x scale 1e-8..1e8 x '
             'n in {0,1,2,3,10,100,1000 (quick), 10000 (thorough)} x data seed; operator in the eight aggregates; mode plain / one multiplexed key / '
             '3 interleaved groups under group_by; key_mapper on/off). Every prefix value of the streaming variant and the reduce value are compared '
             'with exact rational statistics under a bound C*n*u*(v+|m|sqrt(v)) + C*n^2*u^2*m^2 (C=4, u=2^-53; sum/mean: C*n*u*sum|x|). '
@@ -150,7 +159,7 @@ class C12(Check):
 
     def generate(self, rng, tier, shard, nshards):
         ncases = 1600 if tier == 'quick' else 6000
-        kinds = ['gauss', 'uniform', 'int', 'constant', 'alternating', 'outlier']
+        kinds = ['gauss', 'uniform', 'int', 'constant', 'alternating', 'outlier', 'small_ints', 'plateau', 'lattice']
         offsets = [0.0, 1.0, -1.0, 1e3, 1e6, -1e6, 1e9]
         scales = [1e-8, 1e-3, 1.0, 1.0, 1e3, 1e8]
         ns = [0, 1, 2, 3, 10, 100, 100, 1000] if tier == 'quick' else [0, 1, 2, 3, 10, 100, 1000, 1000, 10000]
